@@ -223,6 +223,31 @@ func aliasProbe(r Req) []string {
 			data[i] = byte(int(data[i])*7 + i + round)
 		}
 	}
+	// a refused request first (too much for an explicitly requested size), then the same
+	// buffer refilled and encoded with automatic size: nothing of the refused payload
+	// may survive
+	for _, n := range []int{48, 64, 100, 600} {
+		rb := make([]byte, n)
+		for i := range rb {
+			rb[i] = byte(0x80 + (i*7+n)%120)
+		}
+		var e1 error
+		var again barcode.Barcode
+		pv, _ := fw.Call(func() {
+			_, e1 = aztec.Encode(rb, 23, -1)
+			for i := range rb {
+				rb[i] = byte('a' + (i*5+n)%26)
+			}
+			again, _ = aztec.Encode(rb, 23, 0)
+		})
+		if pv != nil || e1 == nil || again == nil {
+			continue
+		}
+		if msg := verifyDecoded(Req{Fam: "aztec", S: append([]byte{}, rb...), I: []int64{23, 0}, Scheme: -1}, again); msg != "" {
+			out = append(out, fmt.Sprintf("buffer-reuse/after-refusal: a %d-byte buffer was refused for layers -1, refilled and encoded again: %s", n, msg))
+			break
+		}
+	}
 	return out
 }
 
